@@ -489,7 +489,10 @@ class World:
         base = base or self.pick_unit(s.contents)
         q, mode = self.size_request(s.contents, base, self.room_L(d), 1, mode, src_obj=s)
         step = {'op': 'transfer', 'src': [src, None], 'dst': [dst, None], 'q': q, 'mode': mode}
-        res, exc = self.do('Container.transfer', step, lambda: pp.Container.transfer(s, d, q),
+        kwform = rng.random() < 0.2
+        res, exc = self.do('Container.transfer', step,
+                           (lambda: pp.Container.transfer(quantity=q, destination=d, source=s)) if kwform
+                           else (lambda: pp.Container.transfer(s, d, q)),
                            expect={'op': 'Container.transfer', 'must': 'accept', 'tag': 'whole_content_as_reported'}
                            if mode == 'whole_reported' else None)
         if res is not None:
@@ -516,7 +519,9 @@ class World:
         room = min(self.room_L(p.wells[ij]) for ij in idx)
         q, mode = self.size_request(s.contents, base, room, len(idx), mode)
         step = {'op': 'transfer', 'src': [src, None], 'dst': [dst, seldesc], 'q': q, 'mode': mode}
-        res, exc = self.do('Plate.transfer', step, lambda: pp.Plate.transfer(s, target, q))
+        kwform = rng.random() < 0.2
+        res, exc = self.do('Plate.transfer', step, (lambda: pp.Plate.transfer(source=s, quantity=q, destination=target)) if kwform
+                           else (lambda: pp.Plate.transfer(s, target, q)))
         if res is not None:
             self.objs[src], self.objs[dst] = res
             self.keep(*res)
@@ -783,7 +788,11 @@ class World:
             sel, idx, shp = rand_selector(rng, o)
             obj, idx, shp, seldesc = self.slice_or_sub(o, sel, idx, shp)
         step = {'op': 'remove', 'dst': [target, seldesc], 'what': what if isinstance(what, int) else what.name}
-        res, exc = self.do('remove', step, lambda: obj.remove(what))
+        if what == R.LIQUID and rng.random() < 0.5:
+            step['what'] = 'default'
+            res, exc = self.do('remove', step, lambda: obj.remove())          # the documented default: liquids
+        else:
+            res, exc = self.do('remove', step, lambda: obj.remove(what))
         if res is not None:
             self.objs[target] = res
             self.keep(res)
@@ -858,8 +867,8 @@ class World:
         target = target or rng.choice(names)
         o = self.objs[target]
         step = {'op': 'observe', 'target': target}
-        vol_units = ['nL', 'uL', 'mL', 'L', 'dL', 'cL', 'kL']
-        mol_units = ['nmol', 'umol', 'mmol', 'mol', 'kmol']
+        vol_units = ['nL', 'uL', 'µL', 'mL', 'L', 'dL', 'cL', 'daL', 'kL']
+        mol_units = ['nmol', 'umol', 'mmol', 'cmol', 'mol', 'damol', 'kmol']
 
         def fn():
             if isinstance(o, pp.Container):
@@ -867,10 +876,10 @@ class World:
                 subs = list(o.contents.keys()) or self.subs[:1]
                 for s in rng.sample(subs, min(2, len(subs))) + [rng.choice(self.subs)]:
                     if s.is_enzyme():
-                        num = rng.choice(['U', 'g', 'L', 'mg', 'uL'])
+                        num = rng.choice(['U', 'g', 'L', 'mg', 'uL', 'ng', 'kU', 'mU'])
                     else:
-                        num = rng.choice(['mol', 'g', 'L', 'mmol', 'mg', 'uL', 'umol'])
-                    den = rng.choice(['L', 'mL', 'g', 'kg', 'mol', 'uL', 'mg', 'mmol'])
+                        num = rng.choice(['mol', 'g', 'L', 'mmol', 'mg', 'uL', 'umol', 'dag', 'cmol', 'ng', 'nmol', 'kg'])
+                    den = rng.choice(['L', 'mL', 'g', 'kg', 'mol', 'uL', 'mg', 'mmol', 'kL', 'dag', 'cmol', 'nL'])
                     u = rng.choice(['M', 'mM', 'm', 'uM']) if (not s.is_enzyme() and rng.random() < 0.3) else f'{num}/{den}'
                     o.get_concentration(s, u)
             else:
@@ -878,7 +887,9 @@ class World:
                 tgt.get_volumes(unit=rng.choice(vol_units + [None]))
                 subs = list(tgt.get_substances()) or self.subs[:1]
                 pick = rng.choice([rng.choice(subs), rng.sample(subs, min(2, len(subs))), rng.choice(self.subs)])
-                tgt.get_volumes(pick, rng.choice(vol_units + ['mg', 'g', 'umol']))
+                tgt.get_volumes(pick, rng.choice(vol_units + ['mg', 'g', 'umol', 'ng', 'dag', 'U']))
+                tgt.get_volumes()                                     # documented defaults
+                tgt.get_substances()
                 tgt.get_moles(pick, rng.choice(mol_units))
                 if isinstance(tgt, pp.Plate):
                     tgt.get_moles(pick)
